@@ -9,6 +9,7 @@ def main(tier, replay=None):
     th = ["thorough=1"] if tier == "thorough" else []
     fams = [dict(scn="c07", name="c07-" + f, opts=["family=" + f] + th, bounds="0,0,0,0", total=0, deadline=1200) for f in ("status", "cut", "stall", "limits", "multi", "peer")]
     fams.append(dict(scn="c07", name="c07-sessions", opts=["family=sessions", "maxlen=%d" % (5 if tier == "quick" else 6)], bounds="0,0,0,0", total=0, deadline=1200))
+    fams.append(dict(scn="c07", name="c07-queue-program-exits-early", opts=["family=early"], bounds="%d,0,0,0" % (1 if tier == "quick" else 3), total=3, deadline=1200))
     nf = 1 if tier == "quick" else 2
     fams.append(dict(scn="c07", name="c07-faults", opts=["family=faults"], bounds="0,%d,0,0" % nf, total=nf, deadline=1200))
     fams.append(dict(scn="c07", name="c07-shortreads", opts=["family=shortreads"], bounds="0,%d,0,0" % nf, total=nf, deadline=1200))
@@ -16,7 +17,7 @@ def main(tier, replay=None):
     res.rule = ("real qmail-smtpd, qmail-qmtpd and qmail-qmqpd with the real qmail.c (real fork/exec) under the virtual kernel; the queue program is a "
                 "stand-in that records both streams, aborts with 54 on an incomplete envelope as qmail-queue(8) prescribes and otherwise exits "
                 "with the scripted status (one family uses the real qmail-queue).  status: every exit status 0..255, status 82 with five texts, "
-                "crash; cut: client disconnect after every byte of a complete session; stall: the client falls silent after every (quick: every third) byte and keeps the connection open, the virtual clock runs to the read timeout; limits: bodies at databytes-1/0/+1 (file and DATABYTES), "
+                "crash, a queue program exiting 11/31/53/81/82+text before it has read anything (under every interleaving with the daemon's writes within the preemption bound), RELAYCLIENT with a suffix; cut: client disconnect after every byte of a complete session; stall: the client falls silent after every (quick: every third) byte and keeps the connection open, the virtual clock runs to the read timeout; limits: bodies at databytes-1/0/+1 (file and DATABYTES), "
                 "limits 2^31-1, 2^31, 2^32-2, 2^32-1 and 0 with a small message, 98..101 hop fields, address lengths 899..1003, NUL bytes, 8 malformed frames; sessions: every sequence of <=%d commands ending in DATA over "
                 "{MAIL s1, MAIL s2, RCPT a, RCPT b, RCPT refused, RSET, HELO, DATA} on one connection against the RFC 5321 transaction state: reply codes, and each acknowledged message queued with the sender of its own MAIL and exactly the recipients accepted since; peer: every string of length <=3 (4) over "
                 "{LF,(,),;,0x80,SP,backslash,a} in HELO and TCPREMOTEHOST/INFO/IP/TCPLOCALHOST; faults: every one (thorough: every two) failing "
